@@ -8,7 +8,8 @@
 //
 //  1. PeriodLimit histories (vlib.PBFS, pass-through mode + global fake clock): period.go
 //  2. TokenLimiter histories (vlib.PBFS, one vsched.RunSeq execution per history): token.go
-//  3. Schedules (vx): 3 threads × 1–2 Take/AllowN on one key, plus fault/outage threads: sched.go
+//  3. Schedules (vx): 3 threads × 1–2 Take/AllowN on one key, plus fault/outage threads; flapping
+//     store / one-shot faults against the recovery monitor with a recovery epilogue: sched.go
 //
 // State = shortest op list (first op = configuration); keys are reference ⊕ white-box limiter
 // state ⊕ miniredis contents and TTLs (relative to now), see runPeriod / runToken.
@@ -26,7 +27,7 @@ import (
 	"github.com/zeromicro/go-zero/verifshim/vx"
 )
 
-const rule = "histories: explicit-state BFS per configuration — PeriodLimit (period, quota) ∈ {1,2}×{0..3} with and without Align(), ops Take(a|b) / advance {period/2, period−1ms, period, 2·period} / store fault on|off; TokenLimiter (rate, burst) ∈ {(1,1),(2,4),(5,10),(5,1),(10,3)}, two instances on one key, ops AllowN#i(now, n ∈ {1,2,burst,burst+1}) / advance {0.1 (monitor tick), 0.5, 1, 2, 2·burst/rate+1 s} / outage begin|end — on the real limiters + real Lua scripts against miniredis; a state is distinct by reference ⊕ white-box mode flags ⊕ store contents and TTLs; counted non-trivial when the limit was active on the path's last window (a request beyond quota / a refused or oversized token request). Schedules: all interleavings within the preemption bound of 3 threads × 1–2 requests on one key (+ fault / outage thread, recovery monitor); distinct = distinct answer sequences"
+const rule = "histories: explicit-state BFS per configuration — PeriodLimit (period, quota) ∈ {1,2}×{0..3} with and without Align(), ops Take(a|b) / advance {period/2, period−1ms, period, 2·period} / store fault on|off; TokenLimiter (rate, burst) ∈ {(1,1),(2,4),(5,10),(5,1),(10,3)}, two instances on one key, ops AllowN#i(now, n ∈ {1,2,burst,burst+1}) / advance {0.1 (monitor tick), 0.5, 1, 2, 2·burst/rate+1 s} / outage begin|end / one-shot fault (exactly the next 1|2 store commands fail) — on the real limiters + real Lua scripts against miniredis; a state is distinct by reference ⊕ white-box mode flags ⊕ store contents and TTLs; counted non-trivial when the limit was active on the path's last window (a request beyond quota / a refused or oversized token request). Schedules: all interleavings within the preemption bound of 3 threads × 1–2 requests on one key (+ fault / outage thread, recovery monitor); flapping-store scenarios: 1–2 callers × 1–3 AllowN + a fault thread running (down,up,down,up) or one-shot faults, harness operations reordered freely (yield), P preemptions inside calls / the monitor, timer deviation T=1 (the monitor's tick may fire while callers are runnable), then a recovery epilogue (faults cleared, 5 ping intervals at quiescence: every instance back in store mode; refill time; a final pair AllowN#1/#2(now, burst) answered by one bucket); distinct = distinct answer sequences"
 
 // Case is the replay value of a history violation.
 type Case struct {
@@ -88,10 +89,11 @@ func main() {
 
 	if cfg.Shard == "" { // not a vx shard worker: run (or serve) the history searches first
 		pd, td := 7, 5
+		blips := 2 // one-shot faults per token history (quick: every placement of up to two in 5 ops)
 		if cfg.Thorough() {
 			pd, td = 9, 7
 		}
-		pd, td = envInt("C03_PERIOD_DEPTH", pd), envInt("C03_TOKEN_DEPTH", td)
+		pd, td, blips = envInt("C03_PERIOD_DEPTH", pd), envInt("C03_TOKEN_DEPTH", td), envInt("C03_TOKEN_BLIPS", blips)
 		budget := cfg.Deadline().Sub(cfg.Start)
 		pcfgs := periodConfigs(cfg.Thorough())
 		perCfg := map[string]*[2]int{}
@@ -153,7 +155,7 @@ func main() {
 				if d == 0 {
 					return tcfgs
 				}
-				return tokenAlphabet(path)
+				return tokenAlphabet(path, blips, d == td)
 			},
 			Run: func(path []TOp) vlib.RunResult {
 				res := runToken(path, false)
